@@ -409,6 +409,12 @@ Definition index_apply (a i : value) : option outcome :=
                  | Some c => RVal (VInt (Z.of_N (N_of_ascii c)))
                  | None => RPanic
                  end)
+  | VBytes s, VInt k =>
+      Some (if (k <? 0)%Z then RPanic
+            else match nth_byte s (Z.to_nat k) with
+                 | Some c => RVal (VInt (Z.of_N (N_of_ascii c)))
+                 | None => RPanic
+                 end)
   | VInts l, VInt k =>
       Some (if (k <? 0)%Z then RPanic
             else match nth_Z l (Z.to_nat k) with
@@ -462,7 +468,7 @@ Fixpoint typeof (e : expr) : option ty :=
       end
   | EIndex a i =>
       match typeof a, typeof i with
-      | Some TString, Some TInt | Some TInts, Some TInt => Some TInt
+      | Some TString, Some TInt | Some TInts, Some TInt | Some TBytes, Some TInt => Some TInt
       | _, _ => None
       end
   | ESliceAll a =>
@@ -584,17 +590,19 @@ Fixpoint side_effect_free (e : expr) : bool :=
   | ECall (FOpaque _ _) _ => false
   end.
 
-(* ruleguard's .Pure filter on the original (typed) AST: as above, but builtin and conversion calls
-   with pure arguments are accepted, opaque calls are not *)
+(* ruleguard's .Pure filter (ruleguard/utils.go isPure) on the original, typed AST: identifiers, literals,
+   unary/binary/index/paren expressions and type conversions of pure operands; no slice expressions, no
+   other calls (not even len) *)
 Fixpoint rg_pure (e : expr) : bool :=
   match e with
   | EIdent _ _ | ELit _ _ _ => true
-  | EParen x | EUnary _ x | ESliceAll x => rg_pure x
+  | EParen x | EUnary _ x => rg_pure x
+  | ESliceAll _ => false
   | EBinary _ l r => rg_pure l && rg_pure r
   | EIndex a i => rg_pure a && rg_pure i
   | ECall (FPrim p) args =>
       match p with
-      | PLen | PStringOfBytes | PBytesOfString =>
+      | PStringOfBytes | PBytesOfString =>
           (fix go (l : list expr) : bool := match l with [] => true | x :: r => rg_pure x && go r end) args
       | _ => false
       end
